@@ -241,14 +241,18 @@ func relayNumber(addr string) int {
 }
 
 // Difference is one field on which vouch and the reference disagree.
-type Difference struct{ Class, Detail string }
+type Difference struct {
+	Class, Detail string
+	// GotGas: vouch's value, for class relay-gas-limit (lets a caller tell which wrong value it is)
+	GotGas uint64
+}
 
 // Diff compares what vouch returned with the reference, field by field, and
 // returns every disagreement (classes are stable names).
 func Diff(ref *Resolved, got *beaconblockproposer.ProposerConfig) []Difference {
 	var out []Difference
 	add := func(class, format string, a ...any) {
-		out = append(out, Difference{class, fmt.Sprintf(format, a...)})
+		out = append(out, Difference{Class: class, Detail: fmt.Sprintf(format, a...)})
 	}
 	if got == nil {
 		add("nil-config", "ProposerConfig returned nil without error")
@@ -282,6 +286,7 @@ func Diff(ref *Resolved, got *beaconblockproposer.ProposerConfig) []Difference {
 		}
 		if rc.GasLimit != rr.Gas {
 			add("relay-gas-limit", "relay %d gas limit: vouch %d, documentation %d", n, rc.GasLimit, rr.Gas)
+			out[len(out)-1].GotGas = rc.GasLimit
 		}
 		if rr.GraceSpec && rc.Grace != rr.Grace {
 			add("relay-grace", "relay %d grace: vouch %v, documentation %v", n, rc.Grace, rr.Grace)
